@@ -17,9 +17,10 @@ Definition is_cont (b : Z) : bool := (128 <=? b) && (b <? 192).
 Definition is_char_boundary (s : bytes) (i : Z) : bool :=
   if i =? 0 then true
   else if i <? 0 then false
+  else if zlen s <=? i then i =? zlen s
   else match nth_error s (Z.to_nat i) with
        | Some b => negb (is_cont b)
-       | None => i =? zlen s
+       | None => false
        end.
 
 Definition in_range (lo hi b : Z) : bool := (lo <=? b) && (b <=? hi).
